@@ -187,3 +187,5 @@ def run(ck):
     ck.run_rule("C04.R3", "branch/SOB displacement: accept set, parity, field value (cells over all integers)", 8, rule_R3)
     ck.run_rule("C04.R4", "bare numeric operands are local labels", 1, rule_R4)
     ck.run_rule("C03.R7", "address arithmetic behind PC-relative targets (LinearPolynomial algebra)", 18, c03.rule_R7)
+    from ..rules import thunks
+    ck.run_rule("G1", "operand thunks read their own state: captured by value, never updated in place", 20, thunks.rule_G1)
